@@ -25,13 +25,15 @@ TYPES = {
     "int": 1, "long": 1, "uchar": 1, "char": 1, "short": 1, "ulong": 1, "llong": 1, "float": 1, "double": 1, "ldouble": 1,
     "dbits": 1, "fbits": 1, "cdouble": 2, "fv_d3": 3, "fv_i1": 1, "fv_c3": 3, "big64": 1, "big100": 1, "pr_id": 2, "pr_cl": 2,
     "pli": 4, "ip": 5,
+    # pairs whose members have no intrinsic MPI type (shipped as raw bytes: alignment 1 for MPI) and padding; more digit counts / dimensions
+    "pr_li": 2, "pr_il": 2, "pr_pc": 3, "pr_cp": 3, "pr_ed": 2, "pr_n": 3, "big16": 1, "big17": 1, "big55": 1, "fv_d2": 2, "fv_l5": 5,
 }
 MASK = {t: "1" * n for t, n in TYPES.items()}
 MASK["pli"] = "0100"; MASK["ip"] = "10100"
 FULL = [t for t in TYPES if t not in ("pli", "ip")]
 INTRINSIC_ARITH = ["int", "long", "uchar", "char", "short", "ulong", "float", "double", "ldouble"]
 ALIAS = {"dbits": "double", "fbits": "float"}
-STATIC_RANGE = ["fv_d3", "fv_i1", "fv_c3"]     # types with data()/size() but no resize(): MPIData describes them as n x K
+STATIC_RANGE = ["fv_d3", "fv_i1", "fv_c3", "fv_d2", "fv_l5"]     # types with data()/size() but no resize(): MPIData describes them as n x K
 
 
 def pick(rng, specials, lo, hi):
@@ -63,6 +65,16 @@ def elem_any(rng, ty):
         return [str(lo) if hi == 0 else "%d.%d" % (hi, lo)]
     if ty == "pr_id": return [elem_any(r, "int")[0], elem_any(r, "double")[0]]
     if ty == "pr_cl": return [elem_any(r, "char")[0], elem_any(r, "long")[0]]
+    if ty == "pr_li": return [elem_any(r, "long")[0], elem_any(r, "int")[0]]
+    if ty == "pr_il": return [elem_any(r, "int")[0], elem_any(r, "long")[0]]
+    if ty == "pr_pc": return [elem_any(r, "double")[0], elem_any(r, "double")[0], elem_any(r, "char")[0]]
+    if ty == "pr_cp": return [elem_any(r, "char")[0], elem_any(r, "double")[0], elem_any(r, "double")[0]]
+    if ty == "pr_ed": return [pick(r, [0, 1000000, -1, I32 - 1], -I32, I32), elem_any(r, "double")[0]]
+    if ty == "pr_n": return [elem_any(r, "char")[0], elem_any(r, "double")[0], elem_any(r, "char")[0]]
+    if ty in ("big16", "big17", "big55"):
+        w = int(ty[3:]); return [pick(r, [0, 1, 2 ** w - 1, 2 ** (w - 1)], 0, 2 ** w)]
+    if ty == "fv_d2": return [elem_any(r, "double")[0] for _ in range(2)]
+    if ty == "fv_l5": return [elem_any(r, "long")[0] for _ in range(5)]
     if ty == "pli": return [pick(r, [0, 1, 2 ** 64 - 1], 0, 2 ** 64), pick(r, [0, 1, 2, 127], 0, 128), r.randrange(2), r.randrange(2)]
     if ty == "ip": return elem_any(r, "int") + elem_any(r, "pli")
     raise KeyError(ty)
@@ -159,10 +171,8 @@ def gen_coll(ctx, comm, P, N):
         ty = rng.choice(types_move)
         op = rng.choice(["bcast", "ibcast", "ibcast1", "gather", "igather1", "gatherv", "scatter", "iscatter1", "scatterv", "allgather", "iallgather1", "allgatherv"]
                         + ([] if seq else ["igatherV", "iscatterV", "iallgatherV"]))
-        ln = rng.choice([0, 1, 1, 2, 3, 4])
+        ln = rng.choice([0, 1, 1, 2, 3, 4, 17] if rng.random() < 0.3 else [0, 1, 1, 2, 3, 4])
         ex = rng.choice([0, 0, 1, 2])
-        if op in ("igather1", "iallgather1") and ty in STATIC_RANGE and not seq:
-            op = op[1:-1]           # F-C07-3 (known): witnesses are in corpus/C07/cases.txt
         if op == "bcast":
             io = [buf(ty, ln + ex) for _ in range(P)]
             cases.append(coll_line(comm, op, "-", ty, P, root, ln, [], [], io, io))
@@ -185,7 +195,7 @@ def gen_coll(ctx, comm, P, N):
             outs = [buf(ty, P * ln + ex) for r in range(P)]
             cases.append(coll_line(comm, op, "-", ty, P, root, ln, [], [], ins, outs))
         elif op in ("gatherv", "allgatherv"):
-            lens = [rng.choice([0, 1, 2, 3]) for _ in range(P)]
+            lens = [rng.choice([0, 1, 2, 3, 17] if rng.random() < 0.2 else [0, 1, 2, 3]) for _ in range(P)]
             # non-overlapping blocks in a random order with random gaps
             order = list(range(P)); rng.shuffle(order)
             displs = [0] * P; pos = rng.choice([0, 0, 1, 2])
@@ -248,9 +258,9 @@ def gen_dt(ctx, table, N):
     for ty in tys:
         cases.append("layout %s" % ty)
     for it in range(N):
-        ty = tys[it % len(tys)] if it < 4 * len(tys) else rng.choice(tys)
+        ty = tys[it % len(tys)] if it < 8 * len(tys) else rng.choice(tys)
         sz = table[ty]["sizeof"]
-        via = rng.choice(["send", "scalar", "bcast", "raw"]); count = 1 if via == "scalar" else rng.choice([1, 2, 3])
+        via = rng.choice(["send", "scalar", "bcast", "raw"]); count = 1 if via == "scalar" else rng.choice([1, 2, 2, 3, 3, 17])
         ex = rng.choice([0, 1])
         src = rbytes(rng, sz * count)
         dst = bytes([0xA5]) * (sz * (count + ex)) if rng.random() < 0.5 else rbytes(rng, sz * (count + ex))
@@ -269,7 +279,7 @@ def gen_pack(ctx, table, N):
             if rng.random() < 0.5:
                 ty = rng.choice(tys); items.append("s|%s|%s" % (ty, rbytes(rng, table[ty]["sizeof"]).hex()))
             else:
-                ty = rng.choice(dyn); n = rng.choice([0, 1, 2, 4]); items.append("d|%s|%s" % (ty, rbytes(rng, table[ty]["sizeof"] * n).hex() or "_"))
+                ty = rng.choice(dyn); n = rng.choice([0, 1, 2, 3, 4, 17] if rng.random() < 0.3 else [0, 1, 2, 4]); items.append("d|%s|%s" % (ty, rbytes(rng, table[ty]["sizeof"] * n).hex() or "_"))
         cases.append("pack %d %s" % (rng.choice([0, 0, 1, 3]), " ".join(items)))
     return cases
 
@@ -397,11 +407,14 @@ def oracle(case, impl, spec):
         if "EXC" in impl or "UNSUPPORTED" in impl: return "impl: %s" % impl[:100]
         return oracle_pks(case, impl, spec)
     if t[0] == "layout":
-        m = re.match(r"size=(\d+) extent=(\d+) sizeof=(\d+)", impl); s = re.match(r"wf=(\w+) entries=(\S*) comm=(\S*)", spec)
-        if not m or not s: return "layout lines unparsable"
+        m = re.match(r"size=(\d+) extent=(-?\d+) sizeof=(\d+) lb=(-?\d+) tlb=(-?\d+) tub=(-?\d+)", impl); s = re.match(r"wf=(\w+) entries=(\S*) comm=(\S*)", spec)
+        if not m or not s: return "layout lines unparsable: %s" % impl[:80]
+        # the committed MPI datatype itself: arrays of T are walked with stride extent from lower bound lb
+        if (m.group(2), m.group(4)) != (m.group(3), "0"):
+            return "MPI datatype has (lb, extent) = (%s, %s), arrays of the C++ type need (0, sizeof = %s): elements 1.. of every array/vector transfer are misplaced" % (m.group(4), m.group(2), m.group(3))
+        if int(m.group(5)) < 0 or int(m.group(6)) > int(m.group(3)): return "true extent [%s,%s) leaves the object [0,%s)" % (m.group(5), m.group(6), m.group(3))
         if s.group(1) != "true": return "type map not well formed (overlap / outside sizeof / extent != sizeof)"
         if s.group(2) != s.group(3): return "type map covers %s, communicated state is %s" % (s.group(2), s.group(3))
-        if m.group(2) != m.group(3): return "MPI extent %s != sizeof %s" % (m.group(2), m.group(3))
         want = sum(int(x.split(":")[1]) for x in s.group(3).split(","))
         return None if int(m.group(1)) == want else "MPI packs %s bytes, communicated state has %d" % (m.group(1), want)
     if t[0] == "pack":
@@ -442,7 +455,7 @@ def build(ctx, have_impl=False):
         if len(f) == 7 and f[0] in TYPES:
             table[f[0]] = {"sizeof": int(f[1]), "desc": f[2], "comm": f[3], "all": f[4], "packsize": int(f[5]), "extent": int(f[6])}
             lines.append(l)
-    if len(table) < 20:
+    if len(table) < len(TYPES) - len(ALIAS):
         raise V.BuildError("layout measurement failed:\n" + out[-2000:])
     for a, b in ALIAS.items():
         table[a] = table[b]; lines.append(" ".join([a] + [l for l in lines if l.split()[0] == b][0].split()[1:]))
@@ -464,7 +477,31 @@ def run_impl(ctx, impl, P, cases, tag):
     return out
 
 
+def isolate(ctx):
+    """Own build directory per invocation.  Several `bin/check C07 [--repo X]` may run at the same time (mutant trials, seeded trees, the
+    coordinator's runs); with the shared default build/C07 one run could execute the impl binary another run had just compiled from a
+    DIFFERENT tree (observed: a run on /repo reporting exactly the misplacements of the unresized-pair mutant).  Nothing is shared now:
+    binary, extracted model, layout table, case and output files live in build/C07/run-<repo hash>-<pid>; kept afterwards as last-<repo hash>."""
+    import hashlib, atexit, shutil, time as _t
+    base = os.path.join(V.VERIF, "build", "C07")
+    tag = hashlib.sha1(ctx.repo.encode()).hexdigest()[:6]
+    d = os.path.join(base, "run-%s-%d" % (tag, os.getpid()))
+    os.makedirs(d, exist_ok=True)
+    ctx.build = d
+    for old in os.listdir(base):      # left-overs of killed runs
+        p = os.path.join(base, old)
+        if old.startswith("run-") and p != d and _t.time() - os.path.getmtime(p) > 3 * 3600:
+            shutil.rmtree(p, True)
+    def done():
+        last = os.path.join(base, "last-" + tag)
+        shutil.rmtree(last, True)
+        try: os.rename(d, last)
+        except OSError: shutil.rmtree(d, True)
+    atexit.register(done)
+
+
 def run(ctx):
+    isolate(ctx)
     from concurrent.futures import ThreadPoolExecutor
     with ThreadPoolExecutor(max_workers=2) as ex:
         fut = ex.submit(V.cxx, ctx, [HARNESS], ctx.path("impl"), mpi=True, opt="-O1")
@@ -551,6 +588,7 @@ def run(ctx):
 def replay(ctx, path):
     rep = json.load(open(path))
     case = rep["case"]; P = int(rep.get("ranks", 1))
+    isolate(ctx)
     model, impl, table, lt = build(ctx)
     mo = V.run_cases(ctx, [model, lt], [case], tag="rmodel")
     io = run_impl(ctx, impl, P, [case], "rimpl")
